@@ -43,7 +43,7 @@ SPEC = {
                  "C07_layered_refines_sequential", "C07_no_reuse_over_faithful_store", "C07_waste_over_faithful_store",
                  "C07_store_contract_plain", "C07_store_contract_flushkv", "C07_unfaithful_store_witness",
                  # the sequential model derived from the source (Hive/Props/C07d.lean): the functions of sequence.go, translated on every run, interpreted in Lean
-                 "C07_generated_supported", "C07_generated_new", "C07_generated_next", "C07_generated_release", "C07_generated_applies_to_reachable"],
+                 "C07_generated_supported", "C07_generated_new", "C07_generated_next", "C07_generated_release", "C07_generated_crash_points", "C07_generated_applies_to_reachable"],
     "trusted_base": ["hand-written model Hive/Model/Seq.lean of kvstore/sequence.go, tied by differential execution (harness/c07) and - for the calls NewSequence / Next / Release incl. failing store calls - PROVED equal to the interpretation of the source: harness/c07/srcgen translates sequence.go (go/ast) into terms of the small imperative language of Hive/Model/SeqGo.lean on every run, C07_generated_* prove that the interpreted terms compute the model's steps; trusted there: the translator (~300 lines of Go) and the interpreter's semantics of the language (wrapping uint64 arithmetic, early return, tagless switch); crash points are boundaries between the store calls of these functions (skeleton obligations)",
                      "hand-written protocol model Hive/Model/SeqConc.lean (micro-steps of Next/update/Release under seq.Mutex), tied by the regenerated lock/store-call skeletons and by recorded concurrent histories judged with the theorems' trace predicate ('chist' requests)",
                      "Go toolchain, compiled Lean driver"],
@@ -55,7 +55,7 @@ SPEC = {
                  "protocol model: any number of goroutines with arbitrary scripts of Next/Release on one object, every method cut into the code's shared-memory micro-steps (Lock, lease test, store.Get, seq.next = num, store.Set, seq.reserved = reserved, val := next; next++, deferred Unlock; store calls may fail), crash at ANY micro-step + restart with a fresh object used by fresh goroutines",
                  "Go memory model / data races are not modelled: the protocol model is sequentially consistent (justified by C07_concurrent_mutual_exclusion: every access to next/reserved/store happens under seq.Mutex)"],
     "manifest": {
-        "text": "Theorems over every history of restart/Next/Release/crash-at-each-store-boundary with any positive interval: numbers handed out are strictly increasing (C07_strictly_increasing), a crash wastes at most the abandoned object's interval (C07_crash_wastes_le_interval, C07_budget_step), a clean Release wastes none (C07_release_wastes_none); no value ever exceeds 2^64-1, so the uint64 arithmetic of the code never wraps, and at the end of the number space Next reports exhaustion, hands out nothing and writes nothing (C07_no_wrap, C07_lease_spec, C07_exhausted_harmless; C07_old_update_wrap_witness: the unrepaired update reused numbers through wrap-around). Protocol level (Hive/Props/C07b.lean over the interleaving model Hive/Model/SeqConc.lean: any number of goroutines, arbitrary scripts of Next/Release on ONE object, the code's micro-steps, store errors, crash at any micro-step + restart; every reachable configuration = every schedule): at most one goroutine is between Lock and Unlock and only the holder touches next/reserved/the store (C07_concurrent_mutual_exclusion); the history of linearised calls, crashes and restarts is a run of the sequential machine and every returned answer is the sequential one (C07_concurrent_refines_sequential); the ghost log of (goroutine, number) hand-outs is strictly increasing, so no number is returned twice to anybody (C07_concurrent_strictly_increasing, C07_concurrent_no_number_twice); waste bounds lifted (C07_concurrent_crash_wastes_le_interval, C07_concurrent_crash_step: a crash at any micro-step wastes at most the abandoned interval; C07_concurrent_release_wastes_none); without crash/store error the numbers are exactly the consecutive ones from the frontier (C07_concurrent_contiguous). The store as a parameter (Hive/Props/C07c.lean): over EVERY store layer that is faithful (a Set that answered nil is in the database, a failed Set changed nothing, a Get answers what the database holds, shutdown/reopen keep the content) every history - including shutdowns of the database between the store read and the store write of a lease renewal - is a history of the sequential machine (C07_layered_refines_sequential), so no number is handed out twice and the waste bound holds (C07_no_reuse_over_faithful_store, C07_waste_over_faithful_store); the models of plain views and of flushkv are faithful (C07_store_contract_plain, C07_store_contract_flushkv); a flushkv that hides the ErrStoreClosed of the mutation is not, and hands 5 out twice (C07_unfaithful_store_witness). The sequential model is derived from the source (Hive/Props/C07d.lean): on every run harness/c07/srcgen translates the four functions of kvstore/sequence.go into terms of a small imperative language, Lean interprets them (uint64 arithmetic wraps at 2^64, early returns, tagless switch, failing store calls) and C07_generated_new / C07_generated_next / C07_generated_release prove that they compute exactly the model's steps new / next / failNext get|set / release / failRelease (store cell, object fields, answer) for every state within the uint64 range, which every reachable state is (C07_generated_applies_to_reachable); a construct the translator does not know breaks C07_generated_supported. The hand-written model is additionally re-validated against the working tree on every run by a line-by-line differential run (real kvstore.Sequence over mapdb with a store wrapper that crashes after the k-th store call) (every request also compares the object's private fields, the raw stored bytes and the store calls made; sequences run over plain views, the root store and flushkv, over a database that is shut down at every store-call boundary, with a second sequence under another key) and an independent in-Go property oracle (strictly increasing, waste bounds, lease covered by the stored mark, stored mark above every number handed out, acknowledged writes are in the database); the protocol model is tied by the regenerated lock/store-call skeletons (C07_skeleton_*, C07_concurrent_skeleton) and by 'chist' requests (recorded histories of goroutines calling Next while another keeps calling Release, then abandon + restart) that the Lean driver judges with the trace predicate of the C07_concurrent_* theorems.",
+        "text": "Theorems over every history of restart/Next/Release/crash-at-each-store-boundary with any positive interval: numbers handed out are strictly increasing (C07_strictly_increasing), a crash wastes at most the abandoned object's interval (C07_crash_wastes_le_interval, C07_budget_step), a clean Release wastes none (C07_release_wastes_none); no value ever exceeds 2^64-1, so the uint64 arithmetic of the code never wraps, and at the end of the number space Next reports exhaustion, hands out nothing and writes nothing (C07_no_wrap, C07_lease_spec, C07_exhausted_harmless; C07_old_update_wrap_witness: the unrepaired update reused numbers through wrap-around). Protocol level (Hive/Props/C07b.lean over the interleaving model Hive/Model/SeqConc.lean: any number of goroutines, arbitrary scripts of Next/Release on ONE object, the code's micro-steps, store errors, crash at any micro-step + restart; every reachable configuration = every schedule): at most one goroutine is between Lock and Unlock and only the holder touches next/reserved/the store (C07_concurrent_mutual_exclusion); the history of linearised calls, crashes and restarts is a run of the sequential machine and every returned answer is the sequential one (C07_concurrent_refines_sequential); the ghost log of (goroutine, number) hand-outs is strictly increasing, so no number is returned twice to anybody (C07_concurrent_strictly_increasing, C07_concurrent_no_number_twice); waste bounds lifted (C07_concurrent_crash_wastes_le_interval, C07_concurrent_crash_step: a crash at any micro-step wastes at most the abandoned interval; C07_concurrent_release_wastes_none); without crash/store error the numbers are exactly the consecutive ones from the frontier (C07_concurrent_contiguous). The store as a parameter (Hive/Props/C07c.lean): over EVERY store layer that is faithful (a Set that answered nil is in the database, a failed Set changed nothing, a Get answers what the database holds, shutdown/reopen keep the content) every history - including shutdowns of the database between the store read and the store write of a lease renewal - is a history of the sequential machine (C07_layered_refines_sequential), so no number is handed out twice and the waste bound holds (C07_no_reuse_over_faithful_store, C07_waste_over_faithful_store); the models of plain views and of flushkv are faithful (C07_store_contract_plain, C07_store_contract_flushkv); a flushkv that hides the ErrStoreClosed of the mutation is not, and hands 5 out twice (C07_unfaithful_store_witness). The sequential model is derived from the source (Hive/Props/C07d.lean): on every run harness/c07/srcgen translates the four functions of kvstore/sequence.go into terms of a small imperative language, Lean interprets them (uint64 arithmetic wraps at 2^64, early returns, tagless switch, failing store calls) and C07_generated_new / C07_generated_next / C07_generated_release prove that they compute exactly the model's steps new / next / failNext get|set / release / failRelease (store cell, object fields, answer) for every state within the uint64 range, which every reachable state is (C07_generated_applies_to_reachable), and that the store calls they make, with the store cell after each, are exactly the crash points of the model (C07_generated_crash_points: Get then Set in a renewing Next, the write before seq.reserved and before any hand-out; one Set in a Release with a lease; none otherwise); a construct the translator does not know breaks C07_generated_supported. The hand-written model is additionally re-validated against the working tree on every run by a line-by-line differential run (real kvstore.Sequence over mapdb with a store wrapper that crashes after the k-th store call) (every request also compares the object's private fields, the raw stored bytes and the store calls made; sequences run over plain views, the root store and flushkv, over a database that is shut down at every store-call boundary, with a second sequence under another key) and an independent in-Go property oracle (strictly increasing, waste bounds, lease covered by the stored mark, stored mark above every number handed out, acknowledged writes are in the database); the protocol model is tied by the regenerated lock/store-call skeletons (C07_skeleton_*, C07_concurrent_skeleton) and by 'chist' requests (recorded histories of goroutines calling Next while another keeps calling Release, then abandon + restart) that the Lean driver judges with the trace predicate of the C07_concurrent_* theorems.",
         "note": "Trusted: Lean kernel; model Hive/Model/Seq.lean (tie = differential execution, random histories); mutex atomicity of Next assumed in the sequential model, proved for the protocol model Hive/Model/SeqConc.lean (sequentially consistent interleavings; tie = skeletons + recorded concurrent histories) and sampled by concurrent 'par' / 'parrel' / 'chist' requests.",
         "technique": "Lean 4 invariant proof by induction over operation histories + invariant / refinement proof over all interleavings of a micro-step protocol model + differential correspondence",
     },
